@@ -551,6 +551,19 @@ class Scenario(object):
             self.round(rnd, share, cl)
         if self.daemon.alive() and not self.limits:
             self.send_and_exit()
+        if self.daemon.alive() and self.limits and rng.random() < 0.6:
+            # final departure: the connections that did not read (whose bus-side queues were full, so that calls to them
+            # were refused) close their sockets while the callers live on.  A call that was refused must not be answered
+            # a second time now (NoReply for a call the bus never delivered), a delivered one gets its NoReply once.
+            slow = [c for c in self.live() if c.slow]
+            if slow and len(self.live()) > len(slow):
+                for c in slow:
+                    c.view.closed_round = nrounds
+                    c.view.frames = [r.msg for r in c.log]
+                    c.close()
+                self.steps.append("final departure: %s close their sockets" % ", ".join(self.name_of(c) for c in slow))
+                self.settle(nrounds, slow)
+                self.part.count("final-departures-of-non-reading-connections")
         for c in self.live():
             c.view.frames = [r.msg for r in c.log]
             c.view.last_serial = c.serial
